@@ -208,3 +208,172 @@ pub fn mutate(rng: &mut Rng, seed: &[u8], other: &[u8]) -> Vec<u8> {
     }
     b
 }
+
+// ------------------------------------------------------------------------------------------------
+// Lean path (no projection to JSON): used by the child process and by the in-process fuzz sweep, so that
+// the time and stack measured are the crate's, not the harness'.
+use coset::{
+    cwt::ClaimsSet, CborSerializable, CoseEncrypt, CoseEncrypt0, CoseError, CoseKdfContext, CoseKey, CoseKeySet, CoseMac, CoseMac0,
+    CoseRecipient, CoseSign, CoseSign1, CoseSignature, EncryptionContext, Header, Label, PartyInfo, ProtectedHeader, SuppPubInfo,
+    TaggedCborSerializable,
+};
+
+/// everything a user can do with a decoded value that the documentation does not declare panicking
+pub trait Follow: Sized + Clone + PartialEq {
+    fn encode(self) -> Result<Vec<u8>, CoseError>;
+    fn follow(&self) {}
+}
+
+const AAD: &[u8] = &[0xaa, 0xbb];
+const PL: &[u8] = &[0x55];
+
+macro_rules! plain_follow {
+    ($($t:ty),*) => { $( impl Follow for $t { fn encode(self) -> Result<Vec<u8>, CoseError> { self.to_vec() } } )* };
+}
+plain_follow!(Header, ProtectedHeader, CoseSignature, CoseKey, CoseKeySet, ClaimsSet, PartyInfo, SuppPubInfo, CoseKdfContext, Label, coset::cbor::value::Value);
+
+impl Follow for CoseSign1 {
+    fn encode(self) -> Result<Vec<u8>, CoseError> {
+        self.to_vec()
+    }
+    fn follow(&self) {
+        let _ = self.tbs_data(AAD);
+        let _ = self.verify_signature(AAD, |_s, _d| Ok::<(), ()>(()));
+        if self.payload.is_none() {
+            let _ = self.tbs_detached_data(PL, AAD);
+            let _ = self.verify_detached_signature(PL, AAD, |_s, _d| Err::<(), ()>(()));
+        }
+        let _ = self.clone().to_tagged_vec();
+    }
+}
+impl Follow for CoseSign {
+    fn encode(self) -> Result<Vec<u8>, CoseError> {
+        self.to_vec()
+    }
+    fn follow(&self) {
+        for (i, sig) in self.signatures.iter().enumerate().take(4) {
+            let _ = self.tbs_data(AAD, sig);
+            let _ = self.verify_signature(i, AAD, |_s, _d| Ok::<(), ()>(()));
+            if self.payload.is_none() {
+                let _ = self.tbs_detached_data(PL, AAD, sig);
+                let _ = self.verify_detached_signature(i, PL, AAD, |_s, _d| Err::<(), ()>(()));
+            }
+        }
+        let _ = self.clone().to_tagged_vec();
+    }
+}
+impl Follow for CoseMac {
+    fn encode(self) -> Result<Vec<u8>, CoseError> {
+        self.to_vec()
+    }
+    fn follow(&self) {
+        if self.payload.is_some() {
+            let _ = self.verify_tag(AAD, |_t, _d| Ok::<(), ()>(()));
+        }
+        let _ = self.clone().to_tagged_vec();
+    }
+}
+impl Follow for CoseMac0 {
+    fn encode(self) -> Result<Vec<u8>, CoseError> {
+        self.to_vec()
+    }
+    fn follow(&self) {
+        if self.payload.is_some() {
+            let _ = self.verify_tag(AAD, |_t, _d| Err::<(), ()>(()));
+        }
+        let _ = self.clone().to_tagged_vec();
+    }
+}
+impl Follow for CoseEncrypt {
+    fn encode(self) -> Result<Vec<u8>, CoseError> {
+        self.to_vec()
+    }
+    fn follow(&self) {
+        if self.ciphertext.is_some() {
+            let _ = self.decrypt(AAD, |_c, _a| Ok::<Vec<u8>, ()>(vec![]));
+        }
+        let _ = self.clone().to_tagged_vec();
+    }
+}
+impl Follow for CoseEncrypt0 {
+    fn encode(self) -> Result<Vec<u8>, CoseError> {
+        self.to_vec()
+    }
+    fn follow(&self) {
+        if self.ciphertext.is_some() {
+            let _ = self.decrypt(AAD, |_c, _a| Err::<Vec<u8>, ()>(()));
+        }
+        let _ = self.clone().to_tagged_vec();
+    }
+}
+impl Follow for CoseRecipient {
+    fn encode(self) -> Result<Vec<u8>, CoseError> {
+        self.to_vec()
+    }
+    fn follow(&self) {
+        if self.ciphertext.is_some() {
+            let _ = self.decrypt(EncryptionContext::MacRecipient, AAD, |_c, _a| Ok::<Vec<u8>, ()>(vec![]));
+        }
+    }
+}
+
+/// (accepted, failure) -- failure = an accepted value that does not re-encode
+fn lean_after<T: Follow>(r: Result<T, CoseError>) -> (bool, Option<&'static str>) {
+    match r {
+        Err(_) => (false, None),
+        Ok(v) => {
+            let c = v.clone();
+            let _same = c == v; // NaN floats make a value differ from its clone; not an error
+            let bad = if c.encode().is_err() { Some("accepted-value-does-not-encode") } else { None };
+            v.follow();
+            drop(v);
+            (true, bad)
+        }
+    }
+}
+
+/// the lean counterpart of `decode_and_follow`; None = this entry point has no lean form (use the machine)
+pub fn lean_decode_and_follow(ty: &str, reg: &str, api: &str, b: &[u8]) -> Option<(bool, Option<&'static str>)> {
+    if !reg.is_empty() || ty == "Timestamp" {
+        return None;
+    }
+    Some(match (api, ty) {
+        ("bstr", _) => lean_after(ProtectedHeader::from_cbor_bstr(coset::cbor::value::Value::Bytes(b.to_vec()))),
+        ("tagged", "CoseSign") => lean_after(CoseSign::from_tagged_slice(b)),
+        ("tagged", "CoseSign1") => lean_after(CoseSign1::from_tagged_slice(b)),
+        ("tagged", "CoseMac") => lean_after(CoseMac::from_tagged_slice(b)),
+        ("tagged", "CoseMac0") => lean_after(CoseMac0::from_tagged_slice(b)),
+        ("tagged", "CoseEncrypt") => lean_after(CoseEncrypt::from_tagged_slice(b)),
+        ("tagged", "CoseEncrypt0") => lean_after(CoseEncrypt0::from_tagged_slice(b)),
+        ("slice", "Header") => lean_after(Header::from_slice(b)),
+        ("slice", "ProtectedHeader") => lean_after(ProtectedHeader::from_slice(b)),
+        ("slice", "CoseSignature") => lean_after(CoseSignature::from_slice(b)),
+        ("slice", "CoseSign") => lean_after(CoseSign::from_slice(b)),
+        ("slice", "CoseSign1") => lean_after(CoseSign1::from_slice(b)),
+        ("slice", "CoseMac") => lean_after(CoseMac::from_slice(b)),
+        ("slice", "CoseMac0") => lean_after(CoseMac0::from_slice(b)),
+        ("slice", "CoseEncrypt") => lean_after(CoseEncrypt::from_slice(b)),
+        ("slice", "CoseEncrypt0") => lean_after(CoseEncrypt0::from_slice(b)),
+        ("slice", "CoseRecipient") => lean_after(CoseRecipient::from_slice(b)),
+        ("slice", "CoseKey") => lean_after(CoseKey::from_slice(b)),
+        ("slice", "CoseKeySet") => lean_after(CoseKeySet::from_slice(b)),
+        ("slice", "ClaimsSet") => lean_after(ClaimsSet::from_slice(b)),
+        ("slice", "PartyInfo") => lean_after(PartyInfo::from_slice(b)),
+        ("slice", "SuppPubInfo") => lean_after(SuppPubInfo::from_slice(b)),
+        ("slice", "CoseKdfContext") => lean_after(CoseKdfContext::from_slice(b)),
+        ("slice", "Label") => lean_after(Label::from_slice(b)),
+        ("slice", "Value") => lean_after(<coset::cbor::value::Value as CborSerializable>::from_slice(b)),
+        _ => return None,
+    })
+}
+
+/// in-process, panics caught: (accepted, what went wrong)
+pub fn guarded_decode_and_follow(ty: &str, reg: &str, api: &str, b: &[u8]) -> Outcome {
+    let r = std::panic::catch_unwind(std::panic::AssertUnwindSafe(|| lean_decode_and_follow(ty, reg, api, b)));
+    match r {
+        Ok(Some((acc, None))) => Outcome { accepted: acc, bad: None, followups: 0 },
+        Ok(Some((acc, Some(w)))) => Outcome { accepted: acc, bad: Some((w.to_string(), json!({"ev": "encode"}))), followups: 0 },
+        Ok(None) => decode_and_follow(ty, reg, api, b),
+        Err(_) => Outcome { accepted: false, bad: Some(("panicked-in-decode-or-follow-up".into(), json!({"ev": "decode/follow-up"}))), followups: 0 },
+    }
+}
